@@ -2,9 +2,11 @@
 From Coq Require Import Lia ZArith.
 From PG Require Import Lib.Str Lib.StrFacts Lib.Bytes Lib.Percent.
 Local Open Scope N_scope.
-Ltac Zify.zify_post_hook ::= Z.to_euclidean_division_equations.
+(* lia with division/modulo by constants turned into equations; kept local so that
+   importing this file does not change the behaviour of lia elsewhere *)
+Local Ltac dlia := zify; Z.to_euclidean_division_equations; lia.
 
-Ltac b2p :=
+Local Ltac b2p :=
   repeat match goal with
   | H : _ && _ = true |- _ => apply andb_true_iff in H; destruct H
   | H : _ && _ = false |- _ => apply andb_false_iff in H; destruct H
@@ -19,29 +21,29 @@ Ltac b2p :=
   | H : false = true |- _ => discriminate H
   end.
 
-Ltac ifs :=
+Local Ltac ifs :=
   repeat match goal with
   | |- context [if ?c then _ else _] =>
-      let E := fresh "E" in destruct c eqn:E; b2p; try lia
+      let E := fresh "E" in destruct c eqn:E; b2p; try dlia
   end.
 
 (* ---------- hex digits ---------- *)
 Lemma hexval_hexdig d : d < 16 -> hexval (hexdig d) = Some d.
 Proof.
-  intros H. unfold hexval, hexdig. destruct (d <? 10) eqn:D; b2p; ifs; f_equal; lia.
+  intros H. unfold hexval, hexdig. destruct (d <? 10) eqn:D; b2p; ifs; f_equal; dlia.
 Qed.
 
 Lemma hexdig_ascii d : d < 16 -> hexdig d <? 128 = true.
 Proof.
-  intros H. unfold hexdig. destruct (d <? 10); apply N.ltb_lt; lia.
+  intros H. unfold hexdig. destruct (d <? 10); apply N.ltb_lt; dlia.
 Qed.
 
 Lemma hexdig_upper d : d < 16 -> is_upper_hex (hexdig d) = true.
 Proof.
   intros H. unfold is_upper_hex, hexdig.
   destruct (d <? 10) eqn:E; b2p.
-  - apply orb_true_iff; left. apply andb_true_iff; split; apply N.leb_le; lia.
-  - apply orb_true_iff; right. apply andb_true_iff; split; apply N.leb_le; lia.
+  - apply orb_true_iff; left. apply andb_true_iff; split; apply N.leb_le; dlia.
+  - apply orb_true_iff; right. apply andb_true_iff; split; apply N.leb_le; dlia.
 Qed.
 
 Lemma upper_hex_unreserved c : is_upper_hex c = true -> is_unreserved c = true.
@@ -49,10 +51,10 @@ Proof.
   unfold is_upper_hex, is_unreserved. intros H.
   apply orb_true_iff in H as [H|H]; b2p.
   - assert (A : (48 <=? c) && (c <=? 57) = true)
-      by (apply andb_true_iff; split; apply N.leb_le; lia).
+      by (apply andb_true_iff; split; apply N.leb_le; dlia).
     rewrite A. now rewrite !orb_true_r.
   - assert (A : (65 <=? c) && (c <=? 90) = true)
-      by (apply andb_true_iff; split; apply N.leb_le; lia).
+      by (apply andb_true_iff; split; apply N.leb_le; dlia).
     now rewrite A.
 Qed.
 
@@ -61,7 +63,7 @@ Proof.
   unfold hexval. intros H.
   repeat match type of H with
   | context [if ?c then _ else _] => destruct c eqn:?; b2p
-  end; inversion H; subst; lia.
+  end; inversion H; subst; dlia.
 Qed.
 
 Lemma percent_not_unreserved : is_unreserved 37 = false.
@@ -111,8 +113,8 @@ Proof.
   - apply unquote_plain. exact (keeps_not_percent _ _ S K).
   - change ([37; hexdig (c / 16); hexdig (c mod 16)] ++ t)
       with (37 :: hexdig (c / 16) :: hexdig (c mod 16) :: t).
-    rewrite (unquote_escape _ _ (c / 16) (c mod 16)) by (apply hexval_hexdig; lia).
-    f_equal. lia.
+    rewrite (unquote_escape _ _ (c / 16) (c mod 16)) by (apply hexval_hexdig; dlia).
+    f_equal. dlia.
 Qed.
 
 (* the hypothesis on `safe` is necessary: quote("%41", safe="%") = "%41",
@@ -150,7 +152,7 @@ Proof.
     + now rewrite K.
     + apply andb_true_iff in K as [_ K]. rewrite K. now rewrite orb_true_r.
   - simpl. unfold quote_out_ok at 1. simpl.
-    unfold quote_out_ok. rewrite !hexdig_upper by lia. now rewrite !orb_true_r.
+    unfold quote_out_ok. rewrite !hexdig_upper by dlia. now rewrite !orb_true_r.
 Qed.
 
 Theorem quote_charset safe b :
@@ -170,8 +172,8 @@ Proof.
   rewrite (IH B), andb_true_r. unfold quote_byte.
   destruct (quote_keeps safe c) eqn:K; simpl.
   - unfold quote_keeps, is_unreserved in K. rewrite andb_true_r. apply N.ltb_lt.
-    repeat (apply orb_true_iff in K as [K|K]); b2p; lia.
-  - rewrite !hexdig_ascii by lia. reflexivity.
+    repeat (apply orb_true_iff in K as [K|K]); b2p; dlia.
+  - rewrite !hexdig_ascii by dlia. reflexivity.
 Qed.
 
 (* a byte that is not unreserved, not in `safe` and not "%" never occurs in the
@@ -203,11 +205,11 @@ Proof. intros B U S P _. now apply quote_no_space_ctl. Qed.
 Corollary quote_path_no_space_ctl b c :
   is_bytes b = true -> c <= 32 -> mem_N c (quote_path b) = false.
 Proof.
-  intros B C. apply quote_no_space_ctl; [exact B| | |lia].
+  intros B C. apply quote_no_space_ctl; [exact B| | |dlia].
   - unfold is_unreserved.
     repeat (apply orb_false_iff; split);
-      try (apply andb_false_iff; left; apply N.leb_gt; lia); apply N.eqb_neq; lia.
-  - simpl. rewrite orb_false_r. apply N.eqb_neq. lia.
+      try (apply andb_false_iff; left; apply N.leb_gt; dlia); apply N.eqb_neq; dlia.
+  - simpl. rewrite orb_false_r. apply N.eqb_neq. dlia.
 Qed.
 
 Corollary quote_path_no_delims b c :
@@ -254,7 +256,7 @@ Proof.
 Qed.
 
 Lemma ustep_length s c r : ustep s c r -> (length r < length s)%nat.
-Proof. intros H. destruct H; simpl; lia. Qed.
+Proof. intros H. destruct H; simpl; dlia. Qed.
 
 Lemma unquote_bytes_ind (P : list N -> Prop) :
   P [] ->
@@ -264,11 +266,11 @@ Proof.
   intros P0 PS s.
   assert (G : forall n s, (length s <= n)%nat -> P s).
   { induction n as [|n IH]; intros s0 L.
-    - destruct s0; [exact P0 | simpl in L; lia].
+    - destruct s0; [exact P0 | simpl in L; dlia].
     - destruct s0 as [|x r0]; [exact P0|].
       destruct (unquote_bytes_step (x :: r0)) as (c & r & S & E); [discriminate|].
-      apply (PS _ c r S E). apply IH. apply ustep_length in S. lia. }
-  apply (G (length s)). lia.
+      apply (PS _ c r S E). apply IH. apply ustep_length in S. dlia. }
+  apply (G (length s)). dlia.
 Qed.
 
 Lemma unquote_bytes_is_bytes s : is_bytes s = true -> is_bytes (unquote_bytes s) = true.
@@ -278,14 +280,14 @@ Proof.
   - apply is_bytes_cons in B as [C B]. apply is_bytes_cons. split; [exact C | now apply IH].
   - do 3 (apply is_bytes_cons in B as [_ B]).
     apply hexval_lt in HA. apply hexval_lt in HV.
-    apply is_bytes_cons. split; [lia | now apply IH].
-  - apply is_bytes_cons in B as [_ B]. apply is_bytes_cons. split; [lia | now apply IH].
+    apply is_bytes_cons. split; [dlia | now apply IH].
+  - apply is_bytes_cons in B as [_ B]. apply is_bytes_cons. split; [dlia | now apply IH].
 Qed.
 
 Lemma unquote_bytes_length_le s : (length (unquote_bytes s) <= length s)%nat.
 Proof.
-  induction s as [|s c r S E IH] using unquote_bytes_ind; [simpl; lia|].
-  rewrite E. apply ustep_length in S. simpl. lia.
+  induction s as [|s c r S E IH] using unquote_bytes_ind; [simpl; dlia|].
+  rewrite E. apply ustep_length in S. simpl. dlia.
 Qed.
 
 Print Assumptions unquote_quote.
